@@ -554,7 +554,7 @@ def fragment_reason(case):
         (Box(x, 5).f(*T)): the bound method hides the random field from dependency tracking."""
     for nd in case.nodes:
         k, a = nd["k"], nd["a"]
-        if k in ("getitem", "slice") and (plain_container(case, a[0]) or not case.is_random(a[0])):
+        if k in ("getitem", "slice") and not definitely_dist(case, a[0]):
             if any(x and case.is_random(x) for x in a[1:]):
                 return "literal-container-random-index"
         if k == "meth" and -1 in nd["c"][1:] and case.kind(a[0]) == "box" and case.is_random(a[0]):
@@ -572,6 +572,26 @@ def _holds_list(case, n):
     if nd["k"] == "list" or case.ty[n - 1] == "lst":
         return True
     return any(x and _holds_list(case, x) for x in nd["a"])
+
+
+def definitely_dist(case, n):
+    """Sound under-approximation of "this node is a Distribution object when the program is
+    executed" (only then can it be indexed by a random value).  Literals are plain Python
+    containers, and so is whatever plain Python computes from them (Box(x, 0).v is the int 0)."""
+    nd = case.nodes[n - 1]
+    k, a = nd["k"], [x for x in nd["a"] if x]
+    if k in PRIMS:
+        return True
+    if k in ("const", "tuple", "list", "box", "prop", "rel"):
+        return False
+    if k in ("attr", "getitem", "slice", "len", "neg", "pos", "abs"):
+        return definitely_dist(case, a[0])
+    if k in ("call", "meth"):
+        def holds(x):
+            return definitely_dist(case, x) or (case.kind(x) in ("tuple", "list", "box")
+                                                and any(holds(y) for y in case.nodes[x - 1]["a"]))
+        return any(holds(x) for x in (a if k == "call" else a[1:])) or (k == "meth" and definitely_dist(case, a[0]))
+    return any(definitely_dist(case, x) for x in a)   # arithmetic, concatenation, divmod, vmulx
 
 
 def plain_container(case, n):
@@ -1062,6 +1082,24 @@ def core_cases():
         a1 = leaf(c, av) if isinstance(av, tuple) else c.const(av)
         b1 = leaf(c, bv) if isinstance(bv, tuple) else c.const(bv)
         binop(c, "add", c.add("vmulx", a=[a1, b1]), c.const(1))
+    # K: interval arithmetic of quotients and products: numerators / factors whose support lies
+    #    below, across and above zero against positive and negative random denominators
+    nums = [("dr", -1, 4), ("dr", -2, 1), ("un", -H, 3 * H), ("ra", -1, 1), ("dr", 0, 2), ("dr", -3, -1), ("un", 1, 3)]
+    dens = [("un", 1, 2), ("un", H, 2), ("dr", 1, 2), ("un", 1, 4), ("un", -2, -1), ("un", -4, -H)]
+    for nl in nums:
+        for dl in dens:
+            c = new("K:div")
+            binop(c, "truediv", leaf(c, nl), leaf(c, dl))
+            c = new("K:div:+1")
+            binop(c, "add", binop(c, "truediv", leaf(c, nl), leaf(c, dl)), c.const(1))
+            c = new("K:mul")
+            binop(c, "mul", leaf(c, nl), leaf(c, dl))
+    for dl in dens:
+        for k in (-1, 1, 3):
+            c = new("K:rdiv")
+            binop(c, "truediv", c.const(k), leaf(c, dl))
+            c = new("K:rdiv:neg")
+            unop(c, "neg", binop(c, "truediv", c.const(k), leaf(c, dl)))
     # G: leaves whose parameters are random
     for mk in range(12):
         c = new(f"G:{mk}")
